@@ -195,9 +195,15 @@ func Run(c *engine.Ctx) {
 		}
 		kt := keytab.New()
 		var err error
-		if pn := safe(func() { err = kt.Unmarshal(file) }); pn != "" {
+		// the parser gets its own buffer, which the caller reuses right afterwards (as when the next file is read through
+		// it): what was parsed must not depend on the buffer any more
+		inbuf := append([]byte{}, file...)
+		if pn := safe(func() { err = kt.Unmarshal(inbuf) }); pn != "" {
 			c.Violate("parse", "parse:panic", map[string]interface{}{"panic": pn}, rec)
 			return
+		}
+		for i := range inbuf {
+			inbuf[i] = 0xEE
 		}
 		if err != nil {
 			c.Violate("parse", fmt.Sprintf("parse:v%d:error:%s", version, holes.name), map[string]interface{}{"err": trunc(err.Error())}, rec)
